@@ -283,6 +283,8 @@ class Result:
         self.evaluations += 1
         if nontrivial:
             self.nontrivial.add(hashlib.sha1(repr(canon).encode()).hexdigest())
+        if sample is None and not self.samples:
+            sample = dict(case=repr(canon)[:200])       # never leave the evidence without a sample of what was run
         if sample is not None and len(self.samples) < 6:
             self.samples.append(sample)
 
